@@ -466,6 +466,9 @@ func interleaveN(lim [4]uint32, pre []mstore.Op, target string, lit, n, nlits in
 func runC17(ctx *common.Ctx) error {
 	res := ctx.Res
 	rng := ctx.Rng
+	if err := newLits(6).Validate(); err != nil {
+		return err
+	}
 	res.Rule = "wire histories under small limits (mailboxes 3-8, messages 1-5, UID 3-10): APPEND, multi-message UID COPY/MOVE, CREATE with implicit superiors, RENAME creating superiors, connector batches and mailbox creations, approaching the limits from below; after every operation: counts and UIDs within the maxima, refused => no mailbox changed, fitting => accepted; plus two sessions interleaved inside APPEND's check-then-insert window (gated database client); non-trivial = distinct histories in which a limit refusal or an operation ending exactly at a limit occurred"
 	const nlits = 5
 	var lines []string
